@@ -108,6 +108,14 @@ def _hyp_round(law, n, seedval, excluded, acc, shrink):
         test()
     except Violation:
         return holder['fail']
+    except hypothesis.errors.Flaky:
+        # the same case failed once and passed once: the code under test keeps state between evaluations.
+        # A violation was actually observed on the real code, so it is reported (it may not replay in a fresh process).
+        if holder.get('fail'):
+            case, v = holder['fail']
+            v.msg = v.msg + ' [the same case later passed: outcome depends on earlier evaluations in the process]'
+            return case, v
+        raise
     return None
 
 
